@@ -354,8 +354,11 @@ PROPS = {
     "C09": {"tags": ALL, "ppref": ("C09",), "batches": [
         B("c09", 800, 4800, step=True, kinds_wanted=[10, 13]),
         B("c09cut", 150, 900)]},   # the same sequences with reads cut anywhere, also right after ESC
-    "C10": {"tags": [7, 8], "ppref": ("C10",), "batches": [B("stepall", 800, 4800, step=True), B("mixed", 400, 2400)]},
-    "C11": {"tags": [], "ppref": ("C11",), "batches": [B("mixed", 800, 4800, tags=[]), B("c07", 600, 3600, tags=[])], "extra": [tty_engine]},
+    "C10": {"tags": [7, 8], "ppref": ("C10",), "batches": [B("stepall", 800, 4800, step=True), B("mixed", 400, 2400),
+                                                           B("gclusters", 150, 900, modes="1")]},   # merges into the previous cell
+    "C11": {"tags": [], "ppref": ("C11",), "batches": [B("mixed", 800, 4800, tags=[]), B("c07", 600, 3600, tags=[]),
+                                                       B("gclusters", 150, 900, modes="1", tags=[]), B("mixed", 150, 900, modes="1", tags=[])],
+            "extra": [tty_engine]},
     "C12": {"tags": [], "ppref": ("C12",), "batches": [], "extra": [keys_engine]},
     "C13": {"tags": [], "ppref": ("C13",), "batches": [], "extra": [mouse_engine]},
     "C14": {"tags": [4], "ppref": ("C14",), "batches": [B("c14", 800, 4800), B("mixed", 400, 2400)]},
@@ -366,5 +369,6 @@ PROPS = {
     "C18": {"tags": SCREEN + [7], "ppref": ("C18",), "batches": [
         B("c18", 400, 2400, step=True, kinds_wanted=[11]), B("c18", 150, 900)]},
     "C19": {"tags": [4, 5], "ppref": ("C19",), "batches": [B("c19", 800, 4800)]},
-    "C20": {"tags": SCREEN, "ppref": ("C20",), "batches": [B("mixed", 800, 4800), B("stepall", 400, 2400, step=True)]},
+    "C20": {"tags": SCREEN, "ppref": ("C20",), "batches": [B("mixed", 800, 4800), B("stepall", 400, 2400, step=True),
+                                                            B("gclusters", 150, 900, modes="1")]},
 }
